@@ -150,6 +150,26 @@ def bdd_stream(ctx, n, order, tts, aged=False):
                     ctx.violation('C18:export-function',
                                   f'{opname}: exported graph evaluates to {got:#x} at root {u}, '
                                   f'the manager says {tu:#x}', M.case())
+    # the views of the WHOLE manager (read-only calls, outside the session): `levels()` lists
+    # every node once, from the terminal's level up to the root level; a DOT export without
+    # roots shows every node
+    b = M.b
+    from ..impl import show_value
+    lv = list(b.levels())
+    ctx.count('whole-manager-views')
+    if sorted(u for u, _, _, _ in lv) != sorted(b._succ) or any(b._succ[u] != (i, v, w) for u, i, v, w in lv):
+        ctx.violation('C18:levels', 'levels() does not list every node with its triple exactly once', M.case())
+    if [i for _, i, _, _ in lv] != sorted((i for _, i, _, _ in lv), reverse=True):
+        ctx.violation('C18:levels', 'levels() is not ordered from the bottom level up', M.case())
+    if [u for u, _, _, _ in b.levels(skip_terminals=True)] != [u for u, _, _, _ in lv if u != 1]:
+        ctx.violation('C18:levels', 'levels(skip_terminals=True) differs from levels() without the terminal', M.case())
+    try:
+        nodes, edges, xrefs, labels = parse_graph('ok:' + show_value(M.s.impl.op_to_dot(b, None)))
+        if set(nodes) != set(b._succ):
+            ctx.violation('C18:export-nodes', f'to_dot(roots=None): nodes {sorted(nodes)}, table {sorted(b._succ)}',
+                          M.case())
+    except Exception as e:  # noqa: B902
+        ctx.violation('C18:export-rejected', f'to_dot(roots=None) raised {type(e).__name__}', M.case())
     for u, _ in refs:
         M.op('decref', u)
     ctx.sample(dict(stream=M.s.label, first_lines=M.s.lines[:8]))
